@@ -434,11 +434,54 @@ def view_extent(fn, local, depth=14):
     return root, s, e
 
 
-def _view_walk(fn, local, depth=14):
+def const_set(fn, e, depth=0):
+    """the set of integer values expression e can take when it is a constant or a local whose every definition is
+    a constant (`let off = match x { Some(_) => 32, None => 0 }`); None otherwise"""
+    from ..expr import evaluate
+    v = evaluate(e, {})
+    if isinstance(v, int) and not isinstance(v, bool):
+        return {v}
+    if depth > 3 or e is None:
+        return None
+    if e.k == "cast":
+        return const_set(fn, e.a, depth + 1)
+    if e.k == "local":
+        out = set()
+        ds = def_sites(fn, e.a)
+        if not ds or len(ds) > 6:
+            return None
+        for b, kind, payload in ds:
+            if kind != "assign" or payload["place"]["p"]:
+                return None
+            from ..expr import expr_of_def
+            s = const_set(fn, expr_of_def(fn, e.a, kind, payload), depth + 1)
+            if s is None:
+                return None
+            out |= s
+        return out
+    return None
+
+
+def view_span_multi(fn, local, depth=14):
+    """(root, set of possible constant starts) - like view_span when a range bound is a merged constant local"""
+    root, starts, _ = _view_walk(fn, local, depth, multi=True)
+    return root, starts
+
+
+def _view_walk(fn, local, depth=14, multi=False):
+    root, starts, rngs = _view_walk_set(fn, local, depth)
+    if multi:
+        return root, starts, rngs
+    if starts is None or len(starts) != 1:
+        return root, None, None
+    return root, next(iter(starts)), rngs
+
+
+def _view_walk_set(fn, local, depth=14):
     from ..engines import RESLICE
     from ..expr import expr_of_operand, call_arg_exprs, evaluate
     cur = local
-    start = 0
+    start = {0}
     rngs = []
     for _ in range(depth):
         cur = strip_reborrow(fn, cur)[-1]
@@ -455,10 +498,13 @@ def _view_walk(fn, local, depth=14):
                     nm = rng.a.split("::")[-1]
                     vals = [evaluate(o, {}) for o in (rng.c or [])]
                     lo = 0 if nm in ("RangeTo", "RangeFull", "RangeToInclusive") else (vals[0] if vals else None)
-                    if isinstance(lo, int) and not isinstance(lo, bool) and start is not None:
-                        start += lo
+                    los = {0} if nm in ("RangeTo", "RangeFull", "RangeToInclusive") else (const_set(fn, rng.c[0]) if rng.c else None)
+                    if los is not None and start is not None and len(los) * len(start) <= 8:
+                        start = {a + b for a in start for b in los}
                     else:
                         start = None
+                    if los is None or len(los) != 1:
+                        lo = None
                     hi = {"RangeTo": vals[0] if vals else "?", "RangeToInclusive": (vals[0] + 1) if vals and isinstance(vals[0], int) else "?",
                           "Range": vals[1] if len(vals) > 1 else "?", "RangeInclusive": (vals[1] + 1) if len(vals) > 1 and isinstance(vals[1], int) else "?",
                           "RangeFull": None, "RangeFrom": None}.get(nm, "?")
@@ -507,7 +553,7 @@ def _view_walk(fn, local, depth=14):
                 k = evaluate(call_arg_exprs(sc)[1], {})
                 if flds[0]["f"] == 1:
                     if isinstance(k, int) and not isinstance(k, bool) and start is not None:
-                        start += k
+                        start = {a + k for a in start}
                     else:
                         start = None
                 if rngs is not None and isinstance(k, int) and not isinstance(k, bool):
@@ -531,18 +577,20 @@ def cut_points(prog, f):
         if not (c.args and c.args[0].get("k") in ("copy", "move")):
             continue
         if c.path in IDX_CALLS and len(c.args) == 2:
-            root, s0 = view_span(f, c.args[0]["l"])
+            root, s0s = view_span_multi(f, c.args[0]["l"])
             rng = call_arg_exprs(c)[1]
-            if rng.k == "agg" and rng.c is not None and s0 is not None:
+            if rng.k == "agg" and rng.c is not None and s0s is not None:
                 for o in rng.c:
-                    v = evaluate(o, {})
-                    if isinstance(v, int) and not isinstance(v, bool) and s0 + v != 0:
-                        out.setdefault(root, set()).add(s0 + v)
+                    for v in (const_set(f, o) or ()):
+                        for s0 in s0s:
+                            if s0 + v != 0:
+                                out.setdefault(root, set()).add(s0 + v)
         elif c.path in SPLIT_CALLS and len(c.args) == 2:
-            root, s0 = view_span(f, c.args[0]["l"])
-            v = evaluate(call_arg_exprs(c)[1], {})
-            if isinstance(v, int) and not isinstance(v, bool) and s0 is not None and s0 + v != 0:
-                out.setdefault(root, set()).add(s0 + v)
+            root, s0s = view_span_multi(f, c.args[0]["l"])
+            for v in (const_set(f, call_arg_exprs(c)[1]) or ()):
+                for s0 in (s0s or ()):
+                    if s0 + v != 0:
+                        out.setdefault(root, set()).add(s0 + v)
     return out
 
 
